@@ -15,10 +15,11 @@ EXPLANATION = (
     "x -> x + b changes how many groups collapse); R-aligned-pairs (feature and target are paired "
     "only through index-aligned pandas operations -- groupby, crosstab, boolean masks -- never "
     "positionally after .values / list()); R-index-kept (frames built from plain lists are stored "
-    "with index=X.index)."
+    "with index=X.index); R-row-order-free (ties between equal target rates are broken by the modality, "
+    "never by first appearance in the rows: target_rate groups with sorted keys before its stable sort)."
 )
 NOT_DECIDED = "the invariance itself on data (numerical equality of partitions); ties between equal target rates of categories"
-FLOORS = {"R-order-only": 3, "R-order-statistic": 3, "R-label-injective": 1, "R-aligned-pairs": 4, "R-index-kept": 1}
+FLOORS = {"R-order-only": 3, "R-order-statistic": 3, "R-label-injective": 1, "R-aligned-pairs": 4, "R-index-kept": 1, "R-row-order-free": 2}
 
 
 def check(ctx):
@@ -27,6 +28,7 @@ def check(ctx):
     c04.rule_label_injective(ctx)
     quant.check_aligned_pairs(ctx, "R-aligned-pairs")
     c07.rule_index_kept(ctx)
+    quant.check_row_order_free(ctx, "R-row-order-free")
 
 
 MUTANTS = [
@@ -39,6 +41,7 @@ MUTANTS = [
     M("target paired positionally in target_rate", [(F_BASE, "    rates = y.groupby(x, dropna=dropna).mean().sort_values(ascending=ascending)", "    rates = y.groupby(x.values, dropna=dropna).mean().sort_values(ascending=ascending)")], "R-aligned-pairs", "target_rate"),
     M("crosstab on positional arrays", [(F_BIN, "                xtab = crosstab(X[feature], y)", "                xtab = crosstab(X[feature].values, y.values)")], "R-aligned-pairs", "BinaryCarver._aggregator"),
     M("continuous aggregate grouped by a list", [(F_CONT, "                yval = y.groupby(X[feature]).apply(lambda u: list(u))  # pylint: disable=W0108", "                yval = y.groupby(list(X[feature])).apply(lambda u: list(u))  # pylint: disable=W0108")], "R-aligned-pairs", "ContinuousCarver._aggregator"),
+    M("target_rate groups in order of first appearance", [(F_BASE, "    rates = y.groupby(x, dropna=dropna).mean().sort_values(ascending=ascending)", "    rates = y.groupby(x, dropna=dropna, sort=False).mean().sort_values(ascending=ascending)")], "R-row-order-free", "target_rate"),
     M("index=X.index dropped", [(F_BASE, "{feature: values for feature, values in all_transformed}, index=X.index\n", "{feature: values for feature, values in all_transformed}\n")], "R-index-kept"),
 ]
 BENIGN = [
